@@ -46,8 +46,7 @@ let render (t : twl) : string =
   | TComment s -> Printf.sprintf "C,%s,%s" (hx s) loc
   | TOp o -> Printf.sprintf "%s,,%s" (op_name o) loc
 
-(* sub-command `expr`: same input; tokenizes with the extracted tokenizer, then runs the extracted ParserSkel.parse_expr
-   on the token list.  Output:  <outcome> D<native depth reached>
+(* sub-command `expr`: same input; runs the extracted ParserSkel.front_end (tokenize, then parse_expr on the tokens).  Output:  <outcome> D<native depth reached>
      outcome = OK <parser idx after> <ast> | ERR | UNSUP | PANIC | FUEL | LEXERR
      ast: tag | tag(a,b,..) | "<hex of string>" | [a,b,..] | <integer>      (the Debug rendering of the Rust AST, canonical) *)
 let ocaml_string (t : tag) : string =
@@ -65,9 +64,8 @@ let expr_line is_alpha is_numeric (l : string) : string =
   match decode (bytes_of_hex l) with
   | None -> "NOTUTF8"
   | Some q ->
-    (match tokenize is_alpha is_numeric q with
-     | Ok (toks, _) ->
-       let r = parse_expr (List.map (fun t -> t.tok) toks) in
+    (match front_end is_alpha is_numeric q with
+     | Ok r ->
        let o = match r.out with
          | POk (e, i) -> let b = Buffer.create 256 in render_sx b e; Printf.sprintf "OK %d %s" (int_of_nat i) (Buffer.contents b)
          | PErr -> "ERR" | PUnsup -> "UNSUP" | PPanic -> "PANIC" | PFuel -> "FUEL" in
